@@ -116,7 +116,16 @@ func genC03Op(t *rapid.T, a *ref.AF) OpC03 {
 			}
 		}
 	case "copyAF":
-		src := genWellFormedPacket(t, []int{2, 3}, 1)
+		minAF := 1
+		if rapid.IntRange(0, 5).Draw(t, "src-empty-af") == 0 {
+			minAF = 0 // the source may carry an adaptation field of length 0 (no flags byte at all)
+		}
+		src := genWellFormedPacket(t, []int{2, 3}, minAF)
+		if minAF == 0 {
+			src = genWellFormedPacket(t, []int{3}, 0)
+			src.AF = &ref.AF{Len: 0}
+			src.Payload = genPayloadBytes(t, 183, "src-payload")
+		}
 		b := src.MustBytes()
 		o.Src = clone(b[:])
 	}
@@ -162,6 +171,9 @@ func c03Fits(a *ref.AF) bool { return a.Content() <= a.Len }
 // c03Apply computes the expected outcome of op on model a (a copy is edited).
 // It returns the new logical field, whether an error is expected, and which
 // fixed field (if any) became present without a defined value.
+// c03SourceEmpty reports whether the source packet of a copyAF op has adaptation_field_length 0.
+func c03SourceEmpty(o OpC03) bool { return len(o.Src) == 188 && o.Src[3]&0x20 != 0 && o.Src[4] == 0 }
+
 var errC03ArgWritten = errors.New("harness: the setter wrote to the caller's data slice or to the memory behind it")
 
 func c03Apply(a *ref.AF, o OpC03) (na *ref.AF, wantErr bool, undefined string, sizeChange bool) {
@@ -251,8 +263,14 @@ func c03Apply(a *ref.AF, o OpC03) (na *ref.AF, wantErr bool, undefined string, s
 		var sb [188]byte
 		copy(sb[:], o.Src)
 		sp, ok := ref.ParsePacket(sb)
-		if !ok || sp.AF == nil || sp.AF.Len == 0 {
-			panic("harness: copyAF source must be a well-formed packet with a non-empty adaptation field")
+		if !ok || sp.AF == nil {
+			panic("harness: copyAF source must be a well-formed packet with an adaptation field")
+		}
+		if sp.AF.Len == 0 {
+			// an empty field has no flags and no optional fields: copying it leaves none set (a refusal is accepted as well, see checkC03)
+			sizeChange = a.Content() != 1
+			na = &ref.AF{Len: a.Len}
+			break
 		}
 		src := sp.AF.Clone()
 		src.Len = a.Len
@@ -507,6 +525,14 @@ func checkC03(c CaseC03, x *hx.Ctx) *hx.Failure {
 		if err != nil && len(err.Error()) > 16 && err.Error()[:16] == "harness-observed" {
 			return hx.Failf("copyaf-mutates-source", "%s: %v", where, err)
 		}
+		if o.Kind == "copyAF" && err != nil && !wantErr && c03SourceEmpty(o) {
+			// copying an EMPTY adaptation field may also be refused, as long as nothing changes
+			if p != before {
+				return hx.Failf("error-changes-packet-copyAF", "%s: copying an empty adaptation field returned error %q but changed the packet", where, err)
+			}
+			nRefused++
+			continue
+		}
 		if err == errC03ArgWritten {
 			return hx.Failf("setter-writes-caller-data", "%s: %v", where, err)
 		}
@@ -597,7 +623,7 @@ var propC03 = hx.Register(hx.Prop[CaseC03]{ID: "C03", Gen: genC03, Check: checkC
 func c03Rule() {
 	hx.Rec("C03").SetRule("cases: a well-formed packet with a non-empty adaptation field (af_len 1..182 next to a payload, 183 alone; af_len biased to 1,2,7,8,13,14,20,181,182; any fitting subset of optional fields) + a history of up to 60 (on average 15) setter calls (three flag setters, five presence toggles in both polarities incl. repeats, SetPCR/SetOPCR with any value < 2^33*300, SetSpliceCountdown, SetTransportPrivateData/SetAdaptationFieldExtension with lengths biased to 0, exactly-fits and one-too-many, SetAdaptationField from another generated packet or with the packet's own adaptation field). After every step all 188 bytes are compared with the reference serialisation of the model and every getter of both APIs with the model; refused calls must leave the packet byte-identical; calls that fit must succeed. Enumerated: all toggle histories of length <= 3 from 8 af_len values x 32 initial flag subsets. Non-trivial: >= 1 size-changing success and >= 1 of {refused call, removal of a non-empty variable field, repeated toggle, fill to exactly af_len, successful copy of a whole field}.",
 		"only the non-nil-ness of errors is asserted, not which sentinel",
-		"adaptation-field-only packets have af_len 183; the source of SetAdaptationField is a well-formed packet with a non-empty field",
+		"adaptation-field-only packets have af_len 183; the source of SetAdaptationField is a well-formed packet with an adaptation field (possibly of length 0: then nothing is set afterwards, or the call is refused without effect)",
 		"a PCR/OPCR/splice field that became present without receiving a value has no defined contents (re-read from the packet)")
 }
 
